@@ -386,9 +386,34 @@ func raceRender() {
 		}})
 }
 
+// renderProgress: the optional progress callback of a renderer belongs to the caller - it is documented as being
+// called periodically, not as having to be thread-safe. One Render call with a callback that keeps plain (unlocked)
+// state: the fractions must arrive in order, one per pixel here, whatever the workers do; the race pass runs the same
+// body free with the race detector on the callback's state.
+func renderProgress(procs int) {
+	register(scenario{name: fmt.Sprintf("render-progress/procs%d", procs), procs: procs, prop: "C13", about: "LogFunc of a renderer is called from the calling goroutine only, in order",
+		want: func() string { return "[1 2 3 4 5 6]" },
+		body: func() string {
+			scene := &render3d.ColliderObject{Collider: &model3d.Sphere{Radius: 1}, Material: &render3d.LambertMaterial{EmissionColor: render3d.NewColor(1)}}
+			var seen []int
+			calls := 0
+			rr := &render3d.RecursiveRayTracer{Camera: render3d.NewCameraAt(model3d.XYZ(0, -4, 1), model3d.XYZ(0, 0, 0), 0), MaxDepth: 1, NumSamples: 1,
+				LogFunc: func(frac, rate float64) {
+					calls++
+					seen = append(seen, int(math.Round(frac*6)))
+				}}
+			rr.Render(render3d.NewImage(3, 2), scene)
+			if calls != len(seen) {
+				return fmt.Sprintf("calls=%d seen=%v", calls, seen)
+			}
+			return fmt.Sprint(seen)
+		}})
+}
+
 func init() {
 	raceReaders()
 	raceRender()
+	renderProgress(2)
 	meshLazy3("mesh3-lazy/2readers/find-find", [][]int{{0, 4}, {0}})
 	meshLazy3("mesh3-lazy/2readers/find-neighbors", [][]int{{0}, {1, 4}})
 	meshLazy3("mesh3-lazy/2readers/vertexslice-iterverts", [][]int{{2}, {3}})
